@@ -2,6 +2,7 @@ import TrustVerif.Model.StCore
 import TrustVerif.Model.StCheck
 import TrustVerif.Model.C02
 import TrustVerif.Model.C03
+import TrustVerif.Model.StExtCheck
 
 /-!
 Witness programs of the recorded findings (the same programs the harness replays against the
@@ -123,5 +124,28 @@ def init (p : Program) : RunState := { store := p.initStore }
 def firstCycle (p : Program) : CycleOut × Env :=
   let r := cycle .real p 100 (init p)
   (r.2, r.1.store.vars)
+
+
+/-! Stage S4 witnesses -/
+open TrustVerif.StExt in
+/-- `FUNCTION F0 : DINT VAR_INPUT pa0 : DINT := 5; END_VAR F0 := pa0; END_FUNCTION`
+`PROGRAM P VAR d : DINT; END_VAR d := F0(); END_PROGRAM` -/
+def callEmptyArgs : StExt.XProgram :=
+  { funcs := [{ name := "F0", ret := .int .dint,
+                params := [{ name := "pa0", ty := .int .dint, dir := .inp, default := some (.lit none 5) }],
+                locals := [], body := .cons (.assign "F0" (.var "pa0")) .nil }],
+    decls := [decl "d" (.int .dint)],
+    body := .cons (.assign "d" (.call "F0" .nil)) .nil }
+
+open TrustVerif.StExt in
+/-- The same function called properly: `d := F0(pa0 := 7);` and `d := d + F0(8);` -/
+def callSample : StExt.XProgram :=
+  { callEmptyArgs with
+    body := .cons (.assign "d" (.call "F0" (.cons (some "pa0") false (.lit none 7) .nil)))
+      (.cons (.assign "d" (.bin .add (.var "d") (.call "F0" (.cons none false (.lit none 8) .nil)))) .nil) }
+
+def firstXCycle (p : StExt.XProgram) : CycleOut × Env × Nat :=
+  let r := StExt.xcycle p 100 { store := p.initStore }
+  (r.2, r.1.store.vars, r.1.store.frames.length)
 
 end TrustVerif.StCore.Wit
